@@ -31,14 +31,14 @@ EXEC = {
                 q='file:0,universe:600,callbacks:600,preprocess:300,random:200', t='file:0,universe:0,callbacks:10000,preprocess:4000,random:4000'),
     'C13': dict(owns=['C13'], decide='pairs Validate(&v) / Parse(toMap(v), &fresh) on fully populated values: TLC compares the two logged results (path, code, type, message, value) '
                 'and each with the reference',
-                q='file:0,pairs:900,pairspt:500', t='file:0,pairs:15000,pairspt:8000'),
+                q='file:0,pairs:900,pairspt:500,long:0', t='file:0,pairs:15000,pairspt:8000,long:0'),
     'C03': dict(owns=['C03'], decide='C03_Dest (MC); logged destination of every successful Parse = RefDestParse (leaf values, slice length/order, untouched optionals, pointer allocation, $extra)',
-                q='file:0,universe:600,success:900,random:300', t='file:0,universe:0,success:12000,random:4000'),
+                q='file:0,universe:600,success:900,random:300,flat:200', t='file:0,universe:0,success:12000,random:4000,flat:4000'),
     'C14': dict(owns=['C14'], decide='one record rendered as Go map, JSON (zjson), zhttp JSON body, url-encoded form, query string and environment: every view is validated against the reference for the record '
                 '(KeyOf per front end, string leaves, flat sources resolving nested structs against the same source) and the views are compared with each other',
                 q='file:0,frontends:250', t='file:0,frontends:8000'),
     'C09': dict(owns=['C09'], decide='every visit order explored by StructField (MC); all n! forced orders of each real case agree',
-                q='file:0,universe:1200,random:500', t='file:0,universe:0,random:12000'),
+                q='file:0,universe:1200,random:500,tags:250', t='file:0,universe:0,random:12000,tags:4000'),
 }
 
 
@@ -365,8 +365,8 @@ ENGINES['C08'] = pools_engine
 # ---------------------------------------------------------------------------------------------
 # ZogBuild engine: C16
 # ---------------------------------------------------------------------------------------------
-def build_consts(maxs, maxops, clone='TRUE', extra=None):
-    c = {'MaxSchemas': str(maxs), 'MaxOps': str(maxops), 'MaxInitTests': '3', 'SwCloneCopiesSlices': clone}
+def build_consts(maxs, maxops, clone='TRUE', extra=None, merge_fresh='TRUE'):
+    c = {'MaxSchemas': str(maxs), 'MaxOps': str(maxops), 'MaxInitTests': '3', 'SwCloneCopiesSlices': clone, 'SwMergeFresh': merge_fresh}
     if extra:
         c.update(extra)
     return c
@@ -378,18 +378,20 @@ def build_trap():
     if os.path.exists(cache):
         return cache
     os.makedirs(vlib.BUILD, exist_ok=True)
-    res = vlib.run_tlc('ZogBuild', vlib.cfg_text(build_consts(3, 4, clone='FALSE'), invariants=['Independent'], view='View'), workers=8, timeout=600, dump=True)
     eps = []
-    if res['ce']:
+    # one trap per design switch: the shortest history that tells the intended design from the sharing one
+    for kw in (dict(clone='FALSE'), dict(merge_fresh='FALSE')):
+        res = vlib.run_tlc('ZogBuild', vlib.cfg_text(build_consts(3, 4, **kw), invariants=['Independent'], view='View'), workers=8, timeout=600, dump=True)
+        if not res['ce']:
+            raise Inconclusive('ZogBuild: a slice-sharing design is not rejected (vacuous model): %s' % kw)
         ce = json.load(open(res['ce']))['counterexample']
         states = [s[1] for s in ce['state']]
         first = states[0]
         ep = dict(ntests=len(first['intended'][0]['tests']), keys=sorted(first['lastop']['keys']), ops=[])
         for s in states[1:]:
             lo = s['lastop']
-            ep['ops'].append(dict(op=lo['op'], s=lo['s'], o=lo['o'], keys=sorted(lo['keys'])))
+            ep['ops'].append(dict(op=lo['op'], s=lo['s'], o=lo['o'], o2=lo['id'] if lo['op'] == 'merge3' else 0, keys=sorted(lo['keys'])))
         eps.append(ep)
-        # the same history continued symmetrically (append to the other schema first)
     with open(cache, 'w') as f:
         for e in eps:
             f.write(json.dumps(e) + '\n')
